@@ -177,6 +177,10 @@ impl<'s, M: Matcher, S: Sink> MultiLine<'s, M, S> {
                 if keepgoing {
                     keepgoing = match self.last_match.take() {
                         None => true,
+                        // An empty range can only be the position behind
+                        // the final line terminator, which is never reported.
+                        // Don't produce context for it either.
+                        Some(last_match) if last_match.is_empty() => true,
                         Some(last_match) => {
                             self.sink_context(&last_match)?
                                 && self.sink_matched(&last_match)?
